@@ -60,6 +60,8 @@ FUNCTIONS = [
     ("json_object.c", "json_object_get"),
     ("json_object.c", "json_object_put"),
     ("linkhash.c", "lh_table_delete_entry"),
+    ("json_object.c", "json_object_get_boolean"),
+    ("json_object.c", "json_object_get_string_len"),
 ]
 
 
@@ -262,6 +264,14 @@ class Fn:
         ty = ctype(n.get("type", {}))
         if kind in ("ParenExpr", "ConstantExpr"):
             return self.ex(n["inner"][0], env, k)
+        if ty[0] == "F" and kind not in ("CallExpr",):
+            # floating point is outside the translated semantics: the value of a floating expression is an input of the
+            # function (what the theorems say holds for every value of it)
+            return k(self.new_input("f", "float", ("I", 64, True), "value of a floating-point expression (opaque)"), env)
+        if kind in ("ImplicitCastExpr", "CStyleCastExpr") and n.get("castKind") == "FloatingToIntegral":
+            return k(self.new_input("f", "fcast", ty, "result of a floating-point to integer conversion (opaque; its definedness is not checked here)"), env)
+        if kind in ("ImplicitCastExpr", "CStyleCastExpr") and n.get("castKind") == "FloatingToBoolean":
+            return k(self.new_input("f", "fbool", ("I", 32, True), "truth value of a floating-point expression (opaque)"), env)
         if kind == "IntegerLiteral":
             return k(lit(int(n["value"])), env)
         if kind == "StmtExpr":
@@ -627,6 +637,10 @@ class Fn:
         if kind == "BinaryOperator" and n["opcode"] == "||":
             kt2 = self.hoist0(kt, env)
             return self.cond(n["inner"][0], env, kt2, lambda e: self.cond(n["inner"][1], e, kt2, kf))
+        if kind == "BinaryOperator" and n["opcode"] in ("<", ">", "<=", ">=", "==", "!=") and \
+                (ctype(n["inner"][0].get("type", {}))[0] == "F" or ctype(n["inner"][1].get("type", {}))[0] == "F"):
+            v = self.new_input("f", "fcmp", ("I", 32, True), "verdict of a floating-point comparison (opaque)")
+            return self.ite("%s ≠ 0" % self.atom(v), kt(env), kf(env))
         if kind == "BinaryOperator" and n["opcode"] in ("<", ">", "<=", ">=", "==", "!="):
             lop = {"<": "<", ">": ">", "<=": "≤", ">=": "≥", "==": "=", "!=": "≠"}[n["opcode"]]
             a, b = n["inner"]
@@ -868,7 +882,32 @@ class Fn:
             return len(parts) < 3 or self.falls_through(parts[1]) or self.falls_through(parts[2])
         if k == "CallExpr" and self.callee_name(s) in ("__assert_fail", "abort", "json_abort", "exit"):
             return False
+        if k in ("CaseStmt", "DefaultStmt"):
+            return self.falls_through(s["inner"][-1])
+        if k == "SwitchStmt":
+            # a switch with a default whose every arm ends in return / a call that does not return, and no break
+            body = s["inner"][-1]
+            sts = body.get("inner", []) if body.get("kind") == "CompoundStmt" else []
+            has_default = any(self._has_kind(x, "DefaultStmt") for x in sts)
+            if has_default and sts and not self.has_jump(body):
+                # the last statement of every label group must not fall through
+                groups, cur = [], []
+                for x in sts:
+                    if x["kind"] in ("CaseStmt", "DefaultStmt") and cur:
+                        groups.append(cur); cur = []
+                    cur.append(x)
+                groups.append(cur)
+                if all(not self.falls_through(g[-1]) for g in groups):
+                    return False
+            return True
         return True
+
+    def _has_kind(self, n, kind):
+        if n.get("kind") == kind:
+            return True
+        if n.get("kind") in ("CaseStmt", "DefaultStmt"):
+            return self._has_kind(n["inner"][-1], kind)
+        return False
 
     def switch(self, s, env, nxt):
         c, body = s["inner"][0], s["inner"][1]
